@@ -39,7 +39,7 @@ def params(tier):
     if tier == 'quick':
         return {'examples': 150, 'wall': 80, 'case_timeout': 60, 'files': 40}
 
-    return {'examples': 600, 'wall': 600, 'case_timeout': 120, 'files': 110}
+    return {'examples': 2500, 'wall': 600, 'case_timeout': 120, 'files': 110}
 
 
 def floors(tier):
